@@ -1,6 +1,7 @@
 import Driver.Proto
 import PolyVerif.Model.Obj
 import PolyVerif.Model.ObjText
+import PolyVerif.Model.ObjLex
 
 /-!
   Driver for C05 (OBJ).  The text layer (what `bufio.Scanner`, `strings.Fields`, `strconv` do) lives
@@ -193,16 +194,10 @@ def atoi (s : String) : Option Int := ObjText.parseInt s
 
 /-! ### lexer -/
 
-def isSpace (c : Char) : Bool := c == ' ' || c == '\t' || c == '\n' || c == '\r' || c.toNat == 11 || c.toNat == 12
+def isSpace (c : Char) : Bool := ObjText.isSpace c
 
-/-- `strings.Fields` (ASCII) -/
-def fields (s : String) : List String :=
-  let rec go : List Char → List Char → List String → List String
-    | [], cur, acc => (if cur.isEmpty then acc else String.ofList cur.reverse :: acc).reverse
-    | c :: r, cur, acc =>
-      if isSpace c then go r [] (if cur.isEmpty then acc else String.ofList cur.reverse :: acc)
-      else go r (c :: cur) acc
-  go s.toList [] []
+/-- `strings.Fields` (ASCII): the model function `ObjText.fields` (law `fields_printFace` proved in Props/C05Text.lean) -/
+def fields (s : String) : List String := ObjText.fields s
 
 /-- `bufio.ScanLines` -/
 def scanLines (s : String) : List String :=
@@ -260,7 +255,7 @@ def printLine : Line Corner S → String
   | .v p => s!"v {printF p.x} {printF p.y} {printF p.z}"
   | .vn p => s!"vn {printF p.x} {printF p.y} {printF p.z}"
   | .vt p => s!"vt {printF p.x} {printF p.y}"
-  | .f a b c => s!"f {printCorner a} {printCorner b} {printCorner c}"
+  | .f a b c => ObjText.printFace a b c     -- "f " + three corner tokens separated by one blank
   | .g n => "g " ++ n
   | .usemtl n => "usemtl " ++ n
   | .mtllib fs => "mtllib " ++ " ".intercalate fs
